@@ -138,6 +138,7 @@ Inductive diag :=
 | DRestLast                (* restclient/cook.go:153 *)
 | DRestNamedResults        (* restclient/cook.go:159 *)
 | DRestReturnType          (* restclient/cook.go:319 *)
+| DRestExtract             (* restclient/paramhandler.go:71 *)
 | DMapSrcNotExists         (* mapper/generator.go:174 *)
 | DMapDestNotExists        (* mapper/generator.go:179 *)
 | DMapPtrRecv              (* mapper/manual.go:44 *)
@@ -564,14 +565,21 @@ Definition load_package (i : input) (fl : flags) : res loaded :=
                     end
            | _ => Ok None
            end);
-  (* packages.Load itself fails: a file given where a package pattern is expected *)
-  do_ guard (match d with Some DestFile => false | _ => true end) DLoadError;
+  (* packages.Load itself fails when a pattern names a .go file next to the package pattern ".";
+     a regular file with another name is taken for a directory without Go files *)
+  do_ guard (match d with Some DestFile => negb (ends_with ".go" (fl_dest fl)) | _ => true end) DLoadError;
   let dfiles := match d with Some (DestPkg _ fs) => fs | _ => [] end in
   let dname := match d with Some (DestPkg n _) => n | _ => "" end in
   (* hasMultiPkgs for every loaded package, then the same pattern twice *)
-  do_ guard (all_same (map f_pkg files) && all_same (map f_pkg dfiles)) DMultiPkg;
-  do_ guard (match fl_sub fl with CMap => negb (fl_dest fl =? ".") | _ => true end) DMultiPkg;
+  (* outside a module `go list` reports no package at all, so none of the patterns is found *)
   do_ guard (i_inmodule i) DNoPackage;
+  do_ guard (all_same (map f_pkg files) && all_same (map f_pkg dfiles)) DMultiPkg;
+  (* the pattern "." twice: the second match of the same directory is fatal; a directory without
+     Go files is matched by its import path "." and not checked *)
+  do_ guard (match fl_sub fl with
+             | CMap => negb (fl_dest fl =? ".") || match files with [] => true | _ => false end
+             | _ => true
+             end) DMultiPkg;
   let aio := if (fl_file fl =? "") && mem "*" (fl_types fl) then find_allinone (fl_cmdline fl) files else "" in
   Ok {| ld_files := files; ld_dest := dfiles; ld_destname := dname; ld_allinone := aio |}.
 
@@ -815,31 +823,36 @@ Definition sel_named (q n : string) : bool :=
   ((q =? "http") && mem n ["Response"; "Header"; "Request"; "Client"]) ||
   ((q =? "time") && mem n ["Duration"; "Time"]).
 
-(* handleExpr; body = a body parameter has been bound already *)
-Fixpoint rest_param (f : file) (t : texpr) (body : bool) : res bool :=
+(* handleExpr; body = a body parameter has been bound already.  A struct
+   parameter declared in the same file makes handleStruct re-parse the package
+   directory with parser.ParseDir, which fails when a *.go entry cannot be
+   opened (baddir: a dangling symbolic link) *)
+Fixpoint rest_param (baddir : bool) (f : file) (t : texpr) (body : bool) : res bool :=
   match t with
   | TSel q n =>
       if negb (sel_named q n) then Ok body
       else if (q =? "context") && (n =? "Context") then Ok body
       else if body then fatal DRestAmbiguousBody else Ok true
   | TId n =>
-      if is_struct_type n f then (if body then fatal DRestAmbiguousBody else Ok true) else Ok body
+      if is_struct_type n f then
+        (if body then fatal DRestAmbiguousBody else if baddir then fatal DRestExtract else Ok true)
+      else Ok body
   | TMap _ _ => Ok body
-  | TStar x => rest_param f x body
+  | TStar x => rest_param baddir f x body
   | _ => fatal DRestParamType
   end.
 
 (* for _, name := range param.Names { handleExpr(param.Type, name, ...) } *)
-Fixpoint rest_names (f : file) (t : texpr) (names : list string) (body : bool) : res bool :=
+Fixpoint rest_names (baddir : bool) (f : file) (t : texpr) (names : list string) (body : bool) : res bool :=
   match names with
   | [] => Ok body
-  | _ :: l => do b <- rest_param f t body; rest_names f t l b
+  | _ :: l => do b <- rest_param baddir f t body; rest_names baddir f t l b
   end.
 
-Fixpoint rest_params (f : file) (ps : list param) (body : bool) : res bool :=
+Fixpoint rest_params (baddir : bool) (f : file) (ps : list param) (body : bool) : res bool :=
   match ps with
   | [] => Ok body
-  | p :: r => do b <- rest_names f (pa_type p) (pa_names p) body; rest_params f r b
+  | p :: r => do b <- rest_names baddir f (pa_type p) (pa_names p) body; rest_params baddir f r b
   end.
 
 (* exprToString(expr) == "*http.Response" / "error" *)
@@ -858,13 +871,13 @@ Definition path_ok (p : string) : bool :=
     negb (contains quote (stake (n - 2) (sdrop 1 p)))
   else negb (p =? "").
 
-Definition rest_method (f : file) (doc : mdoc) (params results : list param) : res unit :=
+Definition rest_method (baddir : bool) (f : file) (doc : mdoc) (params results : list param) : res unit :=
   match doc with
   | MDNone => Ok tt                                  (* warning, method ignored *)
   | MDBad => Ok tt                                   (* warning, method ignored *)
   | MDReq path =>
       do_ guard (path_ok path) DRestBadPath;
-      do_ rest_params f params false;
+      do_ rest_params baddir f params false;
       let n := List.length results in
       do_ guard (Nat.leb 2 n) DRestFewResults;
       do_ guard (Nat.leb n 3) DRestManyResults;
@@ -880,32 +893,32 @@ Definition rest_method (f : file) (doc : mdoc) (params results : list param) : r
       else Ok tt
   end.
 
-Definition rest_iface (f : file) (items : list iitem) : res unit :=
+Definition rest_iface (baddir : bool) (f : file) (items : list iitem) : res unit :=
   each (fun it => match it with
                   | IEmbed _ => Ok tt
-                  | IMethod _ doc ps rs => rest_method f doc ps rs
+                  | IMethod _ doc ps rs => rest_method baddir f doc ps rs
                   end) items.
 
-Fixpoint rest_walk (T : string) (f : file) (l : list (tspec * bool)) (found : bool) : res bool :=
+Fixpoint rest_walk (baddir : bool) (T : string) (f : file) (l : list (tspec * bool)) (found : bool) : res bool :=
   match l with
   | [] => Ok found
   | (t, _) :: r =>
       if rest_test T t then
         match ts_body t with
-        | BIface items => do_ rest_iface f items; rest_walk T f r true
-        | _ => rest_walk T f r found
+        | BIface items => do_ rest_iface baddir f items; rest_walk baddir T f r true
+        | _ => rest_walk baddir T f r found
         end
-      else rest_walk T f r found
+      else rest_walk baddir T f r found
   end.
 
-Fixpoint rest_files (T : string) (fs : list file) (found : bool) : res bool :=
+Fixpoint rest_files (baddir : bool) (T : string) (fs : list file) (found : bool) : res bool :=
   match fs with
   | [] => Ok found
-  | f :: r => do b <- rest_walk T f (file_tspecs f) found; rest_files T r b
+  | f :: r => do b <- rest_walk baddir T f (file_tspecs f) found; rest_files baddir T r b
   end.
 
-Definition rest_make (ld : loaded) (T : string) : res bool :=
-  do found <- rest_files T (ld_files ld) false;
+Definition rest_make (baddir : bool) (ld : loaded) (T : string) : res bool :=
+  do found <- rest_files baddir T (ld_files ld) false;
   do_ guard found DRestNotExists;
   Ok true.
 
@@ -1140,11 +1153,15 @@ Definition map_list (fl : flags) (ld : loaded) : list string :=
 
 (* ----------------------------------------------------------- Generate *)
 
-Definition make_data (fl : flags) (ld : loaded) (T : string) : res bool :=
+(* a *.go entry of the package directory that cannot be opened *)
+Definition has_dangling_go (i : input) (fl : flags) : bool :=
+  existsb (fun '(n, e) => ends_with ".go" n && match e with EDangling => true | _ => false end) (extra_of i (fl_dir fl)).
+
+Definition make_data (i : input) (fl : flags) (ld : loaded) (T : string) : res bool :=
   match fl_sub fl with
   | CNew => new_make fl ld T
   | CEnum => enum_make ld T
-  | CRest => rest_make ld T
+  | CRest => rest_make (has_dangling_go i fl) ld T
   | CMap => map_make fl ld T
   end.
 
@@ -1184,7 +1201,7 @@ Fixpoint gen_loop (i : input) (fl : flags) (ld : loaded) (fmap : list (string * 
   match types with
   | [] => Ok (sep, merged)
   | T :: r =>
-      do made <- make_data fl ld T;
+      do made <- make_data i fl ld T;
       if negb made then gen_loop i fl ld fmap r sep merged else
       match render_of i T with
       | RExecErr => fatal DExecTemplate
